@@ -10,7 +10,7 @@ rm -f /root/benign.out.*
 i=0
 while [ $i -lt "$SLOTS" ]; do
     ( n=0; while read d; do
-        if [ $((n % SLOTS)) -eq $i ]; then tools/ns_all.sh $((10 + i)) "$d/patch.diff"; fi
+        if [ $((n % SLOTS)) -eq $i ]; then P="$d/patch.diff"; [ -f "$d/patch.rebased.diff" ] && P="$d/patch.rebased.diff"; tools/ns_all.sh $((10 + i)) "$P"; fi
         n=$((n+1))
       done < /root/benign.list ) > /root/benign.out.$i 2>&1 &
     i=$((i+1))
